@@ -904,6 +904,8 @@ class sptensor:
         """
         # If all entries are zero innerproduct must be 0
         if self.nnz == 0:
+            if hasattr(other, "shape") and tuple(self.shape) != tuple(other.shape):
+                assert False, "Inner product must be between tensors of the same size"
             return 0
 
         if isinstance(other, ttb.sptensor):
